@@ -16,7 +16,7 @@ CFG = dict(
     technique="Lean 4 proof (simulation relation over op lists) + refutation witness + regenerated call-site facts + three-way differential execution",
     lean=["Ssv.Props.C06"],
     engines=[dict(harness="qbft", driver="m_qbft", args=["-mode", "c06"], case_delim="reset",
-                  n_quick=30000, n_thorough=300000, thorough_seeds=4, n_search=100000, search_seeds=3)],
+                  n_quick=30000, n_thorough=240000, thorough_seeds=4, n_search=100000, search_seeds=3)],
     rule="honest traffic produced by RUNNING n real controllers (n=4,7; 7 network scenarios) and forged Byzantine traffic with real signatures, replayed to a real "
          "instance / controller with every single-field mutation (type, height, round, root, signers, signature, justifications incl. nested, full data, identifier, "
          "data round; re-signed or not), duplicates, reorderings, drops, extra timeouts, force-stop, other-height ops, compaction (none / runner-style / after every "
